@@ -36,6 +36,10 @@ def main(tier, replay):
         ejobs.append({'label': label + ' +eof', 'src': src2, 'K': K, 'max_paths': 4000 if tier == 'quick' else 20000, 'ends': [True], 'kind': 'c17-end'})
     for i, src in enumerate(gen_c01.programs(chk.seed() + 77, 30 if tier == 'quick' else 300)):
         ejobs.append({'label': f'gen{i} +eof', 'src': '// args: -feof-support\n' + src, 'K': K, 'max_paths': 4000 if tier == 'quick' else 20000, 'ends': [True], 'kind': 'c17-end'})
+    # an `end` pattern must also survive optimisation: small programs are compiled at -O3 as well
+    for j in list(ejobs):
+        if len(j['src']) < 1200 and (tier != 'quick' or j['label'].startswith('corpus/') or 'end' in j['label']):
+            ejobs.append(dict(j, label=j['label'] + ' -O3', flags=('-O3',)))
     st_before = dict(run.cov)
     orig = l3check.work
     l3check.work = c01.work
